@@ -2,10 +2,10 @@ package main
 
 import (
 	"fmt"
-	"regexp"
 	"go/token"
 	"go/types"
 	"math/big"
+	"regexp"
 	"sort"
 	"strings"
 
@@ -45,6 +45,18 @@ func (ex *Exec) call(fr *Frame, cc *ssa.CallCommon, in ssa.Instruction, st *Stat
 		ok := c.Not(c.Eq(recv.Tm, ex.W.zeroOfSort(ex.W.Iface)))
 		ex.oblige("nil", "invoke:"+ex.anchor(fr, in, in.Pos()), cur, ok, in.Pos(), fr.prefix)
 		cur = c.And(cur, ok)
+		if named, ok := cc.Value.Type().(*types.Named); ok && named.Obj().Pkg() != nil {
+			key := named.Obj().Pkg().Path() + "." + named.Obj().Name() + "." + cc.Method.Name()
+			if r, ok := ex.externAttrCall(key, append([]Val{recv}, args...), resT); ok {
+				return r, cur
+			}
+			// assumed contract of an interface method outside the module: no effect on modelled state
+			if r, ncur, ok := ex.externFuncCall(fr, key, append([]Val{recv}, args...), st, cur, in, func(cur *smt.Term) (Val, *smt.Term) {
+				return mkRes("r_" + cc.Method.Name()), cur
+			}); ok {
+				return r, ncur
+			}
+		}
 		if fc, pc := ex.ifaceContract(cc); fc != nil {
 			return ex.ifaceContractCall(fr, cc, fc, pc, recv, args, st, cur, in, mkRes)
 		}
@@ -94,6 +106,9 @@ func (ex *Exec) callStatic(fr *Frame, callee *ssa.Function, cc *ssa.CallCommon, 
 		}
 	}
 	key := ex.Prog.FuncKey(callee)
+	if r, ok := ex.tokenCall(fr, callee, cc, args, st, mkRes); ok {
+		return r, cur
+	}
 	if !ex.W.inModule(pkgOf(callee)) || len(callee.Blocks) == 0 || opaquePkg(pkgOf(callee)) {
 		return ex.externalCall(fr, callee, args, st, cur, mkRes, in, cc)
 	}
@@ -240,7 +255,197 @@ func (ex *Exec) pureIfaceMethod(cc *ssa.CallCommon) bool {
 
 // externalCall models a call into code outside the module: results unconstrained,
 // module-typed heap untouched except elements of slice arguments and cells behind pointer arguments.
+// externContracts finds a declaration about a function outside the module: the package of the function being
+// verified is consulted first, then every other package of the module in path order.
+func (ex *Exec) externContracts() []*PkgContracts {
+	var out []*PkgContracts
+	var paths []string
+	for k := range ex.Prog.contracts {
+		paths = append(paths, k)
+	}
+	sort.Strings(paths)
+	if ex.Fn != nil {
+		if pk := pkgOf(ex.Fn); pk != nil {
+			if pc := ex.Prog.contracts[pk.Path()]; pc != nil {
+				out = append(out, pc)
+			}
+		}
+	}
+	for _, k := range paths {
+		if pc := ex.Prog.contracts[k]; pc != nil && (len(out) == 0 || pc != out[0]) {
+			out = append(out, pc)
+		}
+	}
+	return out
+}
+
+// externAttrCall: `extern attr` declares the call a fixed function of receiver and arguments.
+func (ex *Exec) externAttrCall(key string, args []Val, resT types.Type) (Val, bool) {
+	c := ex.W.C
+	for _, pc := range ex.externContracts() {
+		ufs, ok := pc.ExternAttr[key]
+		if !ok {
+			continue
+		}
+		var ts []*smt.Term
+		var sorts []smt.Sort
+		for _, a := range args {
+			tm := a.Tm
+			if tm == nil {
+				tm = ex.ptrTerm(a)
+			}
+			ts = append(ts, tm)
+			sorts = append(sorts, tm.Sort)
+		}
+		mk := func(name string, t types.Type) Val {
+			so := ex.W.SortOf(t)
+			c.DeclareFun("uf_"+name, sorts, so)
+			if isUnsigned(t) {
+				if ex.unsignedUF == nil {
+					ex.unsignedUF = map[string]bool{}
+				}
+				ex.unsignedUF["uf_"+name] = true
+			}
+			v := Val{T: t, Tm: c.App("uf_"+name, so, ts...)}
+			if wf := ex.W.WF(t, v.Tm, 0); wf != nil {
+				ex.assume(wf)
+			}
+			if pc.ExternNonNil[key] {
+				switch t.Underlying().(type) {
+				case *types.Interface:
+					ex.assume(c.Not(c.Eq(v.Tm, ex.W.zeroOfSort(ex.W.Iface))))
+				case *types.Pointer:
+					ex.assume(c.Not(c.Eq(v.Tm, c.IntLit(0))))
+				}
+			}
+			return v
+		}
+		ex.note(ex.Abstr, "extern-attr:"+key)
+		if tup, isTup := resT.(*types.Tuple); isTup {
+			if tup.Len() != len(ufs) {
+				panic(fmt.Sprintf("extern attr %s: %d functions for %d results", key, len(ufs), tup.Len()))
+			}
+			r := Val{T: resT}
+			for i := 0; i < tup.Len(); i++ {
+				r.Tup = append(r.Tup, mk(ufs[i], tup.At(i).Type()))
+			}
+			return r, true
+		}
+		if len(ufs) != 1 {
+			panic(fmt.Sprintf("extern attr %s: %d functions for one result", key, len(ufs)))
+		}
+		return mk(ufs[0], resT), true
+	}
+	return Val{}, false
+}
+
+var externHdrRe = regexp.MustCompile(`\(([^()]*)\)\s*$`)
+
 func (ex *Exec) externalCall(fr *Frame, callee *ssa.Function, args []Val, st *State, cur *smt.Term, mkRes func(string) Val, in ssa.Instruction, cc *ssa.CallCommon) (Val, *smt.Term) {
+	full := callee.String()
+	var resT types.Type = callee.Signature.Results()
+	if callee.Signature.Results().Len() == 1 {
+		resT = callee.Signature.Results().At(0).Type()
+	}
+	if r, ok := ex.externAttrCall(full, args, resT); ok {
+		return r, cur
+	}
+	if r, ncur, ok := ex.externFuncCall(fr, full, args, st, cur, in, func(cur *smt.Term) (Val, *smt.Term) {
+		// a declared function has exactly the effects its `modifies` clauses name (none by default)
+		return mkRes("r_" + callee.Name()), cur
+	}); ok {
+		return r, ncur
+	}
+	return ex.externalCallBase(fr, callee, args, st, cur, mkRes, in, cc)
+}
+
+// externFuncCall applies an `extern func` declaration (the assumed contract of a function or interface method
+// outside the module): requires are checked, base produces the result and the default effects, ensures are assumed.
+func (ex *Exec) externFuncCall(fr *Frame, full string, args []Val, st *State, cur *smt.Term, in ssa.Instruction, base func(cur *smt.Term) (Val, *smt.Term)) (Val, *smt.Term, bool) {
+	c := ex.W.C
+	for _, pc := range ex.externContracts() {
+		fc := pc.ExternFuncs[full]
+		if fc == nil {
+			continue
+		}
+		// assumed contract of a function outside the module: requires checked, usual effects on the arguments,
+		// ensures assumed
+		var names []string
+		if m := externHdrRe.FindStringSubmatch(fc.Header); m != nil {
+			for _, prm := range strings.Split(m[1], ",") {
+				if f := strings.Fields(strings.TrimSpace(prm)); len(f) > 0 {
+					names = append(names, f[0])
+				}
+			}
+		}
+		pre := st.clone()
+		mkEnv := func(cs, old *State) *CEnv {
+			env := ex.envFor(nil, cs, old, nil)
+			if tp := ex.Prog.TypesPkg(pc.PkgPath); tp != nil {
+				env.pkg = tp
+			}
+			env.pc = pc
+			for i, n := range names {
+				if i < len(args) {
+					env.vars[n] = args[i]
+				}
+			}
+			return env
+		}
+		envPre := mkEnv(st, st)
+		nreq := 0
+		for _, cl := range fc.Clauses {
+			if cl.Kind != "requires" {
+				continue
+			}
+			nreq++
+			label := cl.Label
+			if label == "" {
+				label = fmt.Sprintf("requires%d", nreq)
+			}
+			goal := ex.evalBool(envPre, cl.E, cl)
+			ex.oblige("pre", shortKey(full)+":"+label, cur, goal, in.Pos(), fr.prefix)
+			cur = c.And(cur, goal)
+		}
+		for _, cl := range fc.Clauses {
+			if cl.Kind == "modifies" && cl.Loop == 0 {
+				for _, m := range cl.Mods {
+					ex.havocLvalue(envPre, st, m, cl)
+				}
+			}
+		}
+		res, cur2 := base(cur)
+		cur = cur2
+		envPost := mkEnv(st, pre)
+		var rets []Val
+		if len(res.Tup) > 0 {
+			rets = res.Tup
+		} else if res.Tm != nil || res.Addr != nil {
+			rets = []Val{res}
+		}
+		if envPost.boundNames == nil {
+			envPost.boundNames = map[string]bool{}
+		}
+		for i, r := range rets {
+			envPost.vars[fmt.Sprintf("result%d", i)] = r
+			envPost.boundNames[fmt.Sprintf("result%d", i)] = true
+		}
+		if len(rets) == 1 {
+			envPost.vars["result"] = rets[0]
+			envPost.boundNames["result"] = true
+		}
+		for _, cl := range fc.Clauses {
+			if cl.Kind == "ensures" {
+				ex.assume(c.Implies(cur, ex.evalBool(envPost, cl.E, cl)))
+			}
+		}
+		ex.note(ex.Abstr, "extern-contract:"+full)
+		return res, cur, true
+	}
+	return Val{}, cur, false
+}
+
+func (ex *Exec) externalCallBase(fr *Frame, callee *ssa.Function, args []Val, st *State, cur *smt.Term, mkRes func(string) Val, in ssa.Instruction, cc *ssa.CallCommon) (Val, *smt.Term) {
 	c := ex.W.C
 	full := callee.String()
 	if r, ok := ex.knownExternal(full, args, st, cur, mkRes); ok {
@@ -638,7 +843,7 @@ func (ex *Exec) contractCall(fr *Frame, callee *ssa.Function, fc *FuncContract, 
 	if explicit && len(fc.Logs) == 0 {
 		// ghost logs are outside modifies clauses: a callee that (transitively) logs changes them
 		for _, k := range ex.Prog.ModSummary(callee).sortedKeys() {
-			if strings.HasPrefix(k, "L:") || strings.HasPrefix(k, "N:") {
+			if strings.HasPrefix(k, "L:") || strings.HasPrefix(k, "N:") || strings.HasPrefix(k, "X:") {
 				if hk := ex.Prog.KeyInfo(ex, k); hk != nil {
 					ex.havocKey(st, hk)
 				}
@@ -733,6 +938,7 @@ type Modset struct {
 	all       bool
 	keys      map[string]bool
 	refOnly   map[string][]ssa.Value // key -> loop-invariant base values through which every store goes (loops only)
+	refLoads  map[ssa.Value]string   // base value that is a re-read field of an invariant object -> key of that field
 	locals    map[*ssa.Alloc]bool
 	allocates bool
 }
@@ -813,9 +1019,24 @@ func (ex *Exec) applyCalleeEffects(callee *ssa.Function, args []Val, st *State) 
 func (ex *Exec) loopModset(fr *Frame, li *loopInfo) *Modset {
 	ms := newModset()
 	seen := map[string]bool{}
+	var blocks []*ssa.BasicBlock
 	for b := range li.blocks {
+		blocks = append(blocks, b)
+	}
+	sort.Slice(blocks, func(i, j int) bool { return blocks[i].Index < blocks[j].Index })
+	for _, b := range blocks {
 		for _, in := range b.Instrs {
 			ex.Prog.instrMods(ex, in, ms, li.blocks, seen, fr.pc)
+		}
+	}
+	// a base that is a re-read field is invariant only if the loop never stores to that field
+	for k, bases := range ms.refOnly {
+		for _, b := range bases {
+			if fk, ok := ms.refLoads[b]; ok && (ms.keys[fk] || ms.all) {
+				delete(ms.refOnly, k)
+				ms.refOnly[k] = nil
+				break
+			}
 		}
 	}
 	return ms
